@@ -16,13 +16,22 @@ with the multiplication operator, to construct values such as `11 * e(-21)`.
 """
 
 from enum import Enum
-from decimal import Decimal
+from decimal import Decimal, Context, MAX_PREC, MAX_EMAX, MIN_EMIN
 from typing import Optional, Any, Union, Tuple
 from pydantic import BaseModel, Field
 from pydantic.dataclasses import dataclass
 
 
 EPSILON = 20
+
+# Decimal context in which sums, differences, products, power-of-ten scalings and roundings are exact,
+# i.e. are not limited to the 28 significant digits of the default context.
+_EXACT = Context(prec=MAX_PREC, Emax=MAX_EMAX, Emin=MIN_EMIN)
+
+
+def _round(num: Decimal) -> Decimal:
+    """Round `num` to `EPSILON` decimal places. Unlike the built-in `round`, works for numbers of any magnitude."""
+    return _EXACT.quantize(num, Decimal(1).scaleb(-EPSILON))
 
 
 class Prefix(Enum):
@@ -296,7 +305,7 @@ class Prefixed(BaseModel):
     def scale(self, prefix: Prefix = None) -> "Prefixed":
         """Scale to a new `Prefix`"""
         if isinstance(prefix, Prefix):
-            newnum = self.number * Decimal(10) ** (self.prefix.value - prefix.value)
+            newnum = _EXACT.scaleb(self.number, self.prefix.value - prefix.value)
             return Prefixed.new(newnum, prefix)
         else:
             newpref = Prefix.closest(abs(self.number).log10() + self.prefix.value)
@@ -311,27 +320,27 @@ class Prefixed(BaseModel):
     # Comparison operators that respect class convention
     def __lt__(self, other) -> bool:
         lhs, rhs = _scale_to_smaller(self, other)
-        return round(lhs.number, EPSILON) < round(rhs.number, EPSILON)
+        return _round(lhs.number) < _round(rhs.number)
 
     def __le__(self, other) -> bool:
         lhs, rhs = _scale_to_smaller(self, other)
-        return round(lhs.number, EPSILON) <= round(rhs.number, EPSILON)
+        return _round(lhs.number) <= _round(rhs.number)
 
     def __eq__(self, other) -> bool:
         lhs, rhs = _scale_to_smaller(self, other)
-        return round(lhs.number, EPSILON) == round(rhs.number, EPSILON)
+        return _round(lhs.number) == _round(rhs.number)
 
     def __ne__(self, other) -> bool:
         lhs, rhs = _scale_to_smaller(self, other)
-        return round(lhs.number, EPSILON) != round(rhs.number, EPSILON)
+        return _round(lhs.number) != _round(rhs.number)
 
     def __gt__(self, other) -> bool:
         lhs, rhs = _scale_to_smaller(self, other)
-        return round(lhs.number, EPSILON) > round(rhs.number, EPSILON)
+        return _round(lhs.number) > _round(rhs.number)
 
     def __ge__(self, other) -> bool:
         lhs, rhs = _scale_to_smaller(self, other)
-        return round(lhs.number, EPSILON) >= round(rhs.number, EPSILON)
+        return _round(lhs.number) >= _round(rhs.number)
 
 
 # Union of the types which can be converted to `Prefixed`
@@ -388,8 +397,8 @@ def _scale_to_smaller(
     other = to_prefixed(other)
     smaller = (
         me.prefix
-        if me.number * Decimal(10**me.prefix.value)
-        < other.number * Decimal(10**other.prefix.value)
+        if _EXACT.scaleb(me.number, me.prefix.value)
+        < _EXACT.scaleb(other.number, other.prefix.value)
         else other.prefix
     )
     return me.scale(smaller), other.scale(smaller)
